@@ -85,11 +85,113 @@ def bestDP (s : List Entry) (thr : Int) : Int × Nat :=
     | none => acc
     | some (v, c) => if acc.2 == 0 || v > acc.1 then (v, c) else if v == acc.1 then (acc.1, acc.2 + c) else acc) (0, 0)
 
-/-- the optimum used by the executable model: the exhaustive enumeration `best` on small instances,
-the dynamic programme beyond (where the enumeration is infeasible) -/
+/-! ### a certified optimum for large instances
+
+`hungarian` (the classical O(n²m) potential method, unverified) solves the assignment problem "every query
+goes to a track or to its own dummy column worth the threshold" and returns dual potentials and a
+matching. `certified` *checks* them: dual feasibility (`w(q,t) ≤ U q + V t`, `thr ≤ U q + Vd q`, `V, Vd ≥ 0`),
+the matching is a one-to-one partial assignment over the table's tracks, and its objective equals the dual
+bound. By weak duality (`Lemmas/AssignCert.lean`, `certified_eq_best`) the returned value is then exactly `best`:
+nothing about `hungarian` itself has to be trusted. -/
+
+def INF : Int := 1000000000000000000
+
+/-- potentials `(u, v)` (index 0 unused) and `p[j]` = the row matched to column `j`, for the minimisation
+problem `a i j`, rows `1..n`, columns `1..m`, `n ≤ m` -/
+def hungarian (n m : Nat) (a : Nat → Nat → Int) : Array Int × Array Int × Array Nat := Id.run do
+  let mut u : Array Int := Array.replicate (n + 1) 0
+  let mut v : Array Int := Array.replicate (m + 1) 0
+  let mut p : Array Nat := Array.replicate (m + 1) 0
+  let mut way : Array Nat := Array.replicate (m + 1) 0
+  for i in [1:n+1] do
+    p := p.set! 0 i
+    let mut j0 := 0
+    let mut minv : Array Int := Array.replicate (m + 1) INF
+    let mut used : Array Bool := Array.replicate (m + 1) false
+    for _ in [0:m+2] do
+      used := used.set! j0 true
+      let i0 := p[j0]!
+      let mut delta := INF
+      let mut j1 := 0
+      for j in [1:m+1] do
+        if !used[j]! then
+          let cur := a i0 j - u[i0]! - v[j]!
+          if cur < minv[j]! then
+            minv := minv.set! j cur
+            way := way.set! j j0
+          if minv[j]! < delta then
+            delta := minv[j]!
+            j1 := j
+      for j in [0:m+1] do
+        if used[j]! then
+          u := u.set! p[j]! (u[p[j]!]! + delta)
+          v := v.set! j (v[j]! - delta)
+        else
+          minv := minv.set! j (minv[j]! - delta)
+      j0 := j1
+      if p[j0]! == 0 then break
+    for _ in [0:m+2] do
+      let j1 := way[j0]!
+      p := p.set! j0 p[j1]!
+      j0 := j1
+      if j0 == 0 then break
+  return (u, v, p)
+
+def lookupD (l : List (Nat × Int)) (k : Nat) : Int := ((l.find? (fun p => p.1 == k)).map (·.2)).getD 0
+
+/-- structural duplicate-freeness test -/
+def nodupN : List Nat → Bool
+  | [] => true
+  | a :: l => !l.contains a && nodupN l
+
+def isum (l : List Int) : Int := l.foldr (· + ·) 0
+
+/-- dual feasibility of `(U, V, Vd)` for the table, and `a` a one-to-one partial assignment over its tracks
+whose objective equals the dual bound: then that bound is the optimum -/
+def certOK (s : List Entry) (thr : Int) (U V Vd : Nat → Int) (a : List (Option Nat)) : Bool :=
+  let qs := queries s
+  let ts := tracks s
+  qs.all (fun q => ts.all (fun t => decide (weightOf s q t ≤ U q + V t))) &&
+  qs.all (fun q => decide (thr ≤ U q + Vd q) && decide (0 ≤ Vd q)) &&
+  ts.all (fun t => decide (0 ≤ V t)) &&
+  a.length == qs.length && (a.filterMap id).all (fun t => ts.contains t) &&
+  nodupN (a.filterMap id) &&
+  objective s thr qs a == isum (qs.map U) + isum (qs.map Vd) + isum (ts.map V)
+
+/-- run the solver and check its certificate; `some B` only when `B` is certified -/
+def certified (s : List Entry) (thr : Int) : Option Int :=
+  let qs := queries s
+  let ts := tracks s
+  let n := qs.length
+  let m := ts.length
+  let qa := qs.toArray
+  let ta := ts.toArray
+  let cost (i j : Nat) : Int :=
+    if j ≤ m then -(weightOf s (qa.getD (i - 1) 0) (ta.getD (j - 1) 0))
+    else if j == m + i then -thr else INF / 4
+  let (u, v, p) := hungarian n (m + n) cost
+  let U : Nat → Int := lookupD (qs.zip ((List.range n).map (fun i => -(u.getD (i + 1) 0))))
+  let V : Nat → Int := lookupD (ts.zip ((List.range m).map (fun j => -(v.getD (j + 1) 0))))
+  let Vd : Nat → Int := lookupD (qs.zip ((List.range n).map (fun i => -(v.getD (m + i + 1) 0))))
+  -- row i (1-based) is matched to the column j with p[j] = i
+  let a : List (Option Nat) := (List.range n).map (fun i =>
+    match (List.range (m + n + 1)).find? (fun j => decide (1 ≤ j) && p.getD j 0 == i + 1) with
+    | some j => if j ≤ m then some (ta.getD (j - 1) 0) else none
+    | none => none)
+  if certOK s thr U V Vd a then some (isum (qs.map U) + isum (qs.map Vd) + isum (ts.map V)) else none
+
+/-- the optimum used by the executable model: the exhaustive enumeration `best` on small instances; beyond
+(where the enumeration is infeasible) the certified optimum of the potential method, which *is* `best`
+(`bestOf_eq_best`). Should the solver ever fail to produce a certificate the definition falls back to the
+enumeration, so `bestOf = best` holds unconditionally; the driver reports that case as a machinery error
+instead of evaluating it. -/
 def small (s : List Entry) : Bool := decide ((queries s).length ≤ 5) && decide ((tracks s).length ≤ 5)
 
-def bestOf (s : List Entry) (thr : Int) : Int := if small s then best s thr else (bestDP s thr).1
+def bestOf (s : List Entry) (thr : Int) : Int :=
+  if small s then best s thr else
+  match certified s thr with
+  | some b => b
+  | none => best s thr
 
 /-- number of optimal assignments -/
 def optCount (s : List Entry) (thr : Int) : Nat := if small s then (optimal s thr).length else (bestDP s thr).2
